@@ -122,6 +122,44 @@ Proof.
   - now rewrite K2.
 Qed.
 
+(* RestartNumbering: the invariant is kept; every definition handed out before stays as it was; when the list
+   exists the new numbering id means what the old one means, at every level *)
+Lemma find_inst_In n l a : find_inst n l = Some a -> In (n, a) l.
+Proof.
+  induction l as [|[m b] r IH]; simpl; [discriminate|]. destruct (Nat.eqb m n) eqn:E.
+  - intros H. inversion H; subst. apply Nat.eqb_eq in E. subst. now left.
+  - intros H. right. now apply IH.
+Qed.
+
+Theorem restart_inv s numid : InvN s -> InvN (restart s numid).
+Proof.
+  intros I. unfold restart. destruct (find_inst numid (instances s)) as [a|] eqn:F; constructor; cbn [abstracts next_abs instances next_num].
+  - apply (in_abs _ I).
+  - intros n b H. apply in_app_iff in H. destruct H as [H|[H|[]]].
+    + destruct (in_inst _ I n b H) as [A B]. split; [lia|exact B].
+    + inversion H; subst. split; [lia|]. exact (proj2 (in_inst _ I _ _ (find_inst_In _ _ _ F))).
+  - apply (in_absdup _ I).
+  - apply (in_abs _ I).
+  - intros n b H. destruct (in_inst _ I n b H) as [A B]. split; [lia|exact B].
+  - apply (in_absdup _ I).
+Qed.
+
+Theorem restart_keeps s numid n ilvl d : level_def s n ilvl = Some d -> level_def (restart s numid) n ilvl = Some d.
+Proof.
+  intros H. unfold level_def in *. unfold restart.
+  destruct (find_inst numid (instances s)) as [a|]; cbn [instances abstracts]; [|exact H].
+  destruct (find_inst n (instances s)) as [b|] eqn:FI; [|discriminate].
+  rewrite find_inst_keep by congruence. rewrite FI. exact H.
+Qed.
+
+Theorem restart_same_definition s numid ilvl : InvN s -> find_inst numid (instances s) <> None ->
+  level_def (restart s numid) (next_num s) ilvl = level_def s numid ilvl.
+Proof.
+  intros I H. unfold restart, level_def. destruct (find_inst numid (instances s)) as [a|] eqn:F; [|contradiction].
+  cbn [instances abstracts]. rewrite find_inst_last by (intros m b Hin E; destruct (in_inst _ I m b Hin); lia).
+  reflexivity.
+Qed.
+
 (* instance obligation on the source: the cache key contains every attribute the level
    definitions depend on, and the defined levels are 0..8 *)
 Definition numkey_ok : bool :=
